@@ -33,8 +33,8 @@ func init() {
 
 func init() {
 	props["C13"] = PropDef{Level: "exploration", QuickS: 40, ThoroughS: 600,
-		Units:    []Unit{{Name: "defrag-v4", Pkg: "./props/defrag", Sim: "c13v4", Share: 0.7}, {Name: "defrag-v6", Pkg: "./props/defrag", Sim: "c13v6", Share: 0.15}, {Name: "defrag-v6-clock", Pkg: "./props/defrag", Sim: "c13v6clock", Share: 0.15}},
-		Rule:     "one evaluation = one simulated run: 1-4 datagrams over 1-4 (src,dst,id) keys (header 20-60 bytes, payload 9-65515 bytes, cut at seeded multiples of 8), network reordering/duplication/loss, key reuse, a hostile injector (conflicting overlaps, holes, undersized, oversize, >8192 fragments) and DiscardOlderThan timers on the simulated clock; reference model of the received set per key checked at every call; unit defrag-v6-clock runs the IPv6 defragmenter inside a synctest bubble (it stamps its lists with time.Now()): fragments, clock advances and DiscardOlderThan with cut-offs behind and ahead of the clock, identifications reused once the model says their list is gone; non-trivial = at least one fault fired; distinct = distinct event-log fingerprints among non-trivial runs",
+		Units:    []Unit{{Name: "defrag-v4", Pkg: "./props/defrag", Sim: "c13v4", Share: 0.6}, {Name: "defrag-v4-clock", Pkg: "./props/defrag", Sim: "c13v4clock", Share: 0.12}, {Name: "defrag-v6", Pkg: "./props/defrag", Sim: "c13v6", Share: 0.14}, {Name: "defrag-v6-clock", Pkg: "./props/defrag", Sim: "c13v6clock", Share: 0.14}},
+		Rule:     "one evaluation = one simulated run: 1-4 datagrams over 1-4 (src,dst,id) keys (header 20-60 bytes, payload 9-65515 bytes, cut at seeded multiples of 8), network reordering/duplication/loss, key reuse, a hostile injector (conflicting overlaps, holes, undersized, oversize, >8192 fragments) and DiscardOlderThan timers on the simulated clock; reference model of the received set per key checked at every call; unit defrag-v4-clock feeds the same simulation through DefragIPv4, which stamps its lists with time.Now(), inside a synctest bubble whose fake clock the harness advances; unit defrag-v6-clock runs the IPv6 defragmenter inside a synctest bubble (it stamps its lists with time.Now()): fragments, clock advances and DiscardOlderThan with cut-offs behind and ahead of the clock, identifications reused once the model says their list is gone; non-trivial = at least one fault fired; distinct = distinct event-log fingerprints among non-trivial runs",
 		RealStub: "real: ip4defrag.IPv4Defragmenter, ip6defrag.IPv6Defragmenter; stub: fragmenting senders, network, clock",
 		Assume:   []string{"fragments are layers.IPv4 / layers.IPv6Fragment values built field by field with Length consistent with header and payload", "IPv6: one datagram per identification at a time; behaviour after completion is not checked; the count returned by the IPv6 DiscardOlderThan is not checked (completed lists stay until discarded), only what is forgotten", "the defragmenter may keep references to the fragments it was given (buffers are not reused by the harness)"}}
 }
@@ -109,6 +109,7 @@ var probeNames = map[string][]string{
 	"c12r":       {"preempted_runs", "completed_concurrently", "flush_forced_skip", "stream_created_and_discarded", "reopened_connection_delivered"},
 	"c13v4":      {"datagram_reassembled", "datagram_with_options_reassembled", "unfragmented_passthrough", "partial_datagram_discarded", "key_collision_mixed", "hostile_set_reassembled", "8000_fragments_reassembled"},
 	"c13v6":      {"ipv6_reassembled"},
+	"c13v4clock": {"defragmented_on_simulated_clock", "partial_datagram_discarded"},
 	"c13v6clock": {"ipv6_reassembled_on_simulated_clock", "partial_ipv6_datagram_forgotten"},
 	"c14pcap":    {"exhaustive_cut_sweep", "libpcap_read_pcap"},
 	"c14ng":      {"exhaustive_cut_sweep", "libpcap_read_pcapng", "interface_with_timestamp_offset", "interface_added_between_packets", "secrets_block_between_packets", "statistics_block_between_packets"},
